@@ -7,8 +7,11 @@ EXTENDS Sequences, FiniteSets
 Settings == {"swift_prefix", "kotlin_prefix", "java_package", "scala_package", "go_package"}
 Absent == ""
 
-\* command line wins, then the file, then the default (empty)
-Effective(cli, file) == [s \in Settings |-> IF cli[s] # Absent THEN cli[s] ELSE IF file[s] # Absent THEN file[s] ELSE Absent]
+\* an option GIVEN on the command line with an empty value (--swift-prefix "") is given: it wins, and the value is empty
+GivenEmpty == "<given-empty>"
+\* command line wins whenever the option is given, then the file, then the default (empty)
+Effective(cli, file) == [s \in Settings |-> IF cli[s] = GivenEmpty THEN Absent
+                                             ELSE IF cli[s] # Absent THEN cli[s] ELSE IF file[s] # Absent THEN file[s] ELSE Absent]
 
 \* which settings a language's output exposes, and where
 Exposes(lang) == CASE lang = "swift" -> {"swift_prefix"}
